@@ -1,1 +1,1052 @@
-fn main() {} // placeholder so the workspace loads; replace me
+//! C11 — curve types implement the group law; encodings are canonical and checked.
+//!
+//! Every exported curve type (BLS12-381 G1/G2, Jubjub extended/affine/subgroup, secp256k1,
+//! Curve25519 (+subgroup type), BN254 G1/G2) is driven over a point alphabet {identity, G, 2G,
+//! -G, 3 seeded, small-order / non-subgroup points on cofactor curves} x every operator impl x
+//! a scalar alphabet, and compared with the affine group law over big integers (`model.rs`).
+//! Encodings: round trip, crafted strings, random strings and single-bit corruptions of valid
+//! encodings against a specification-level decoder.
+
+mod ext;
+mod generic;
+mod model;
+mod specific;
+
+use std::convert::TryInto;
+
+use ff::PrimeField;
+use group::{cofactor::CofactorCurveAffine, prime::PrimeCurveAffine, Curve, Group, GroupEncoding, UncompressedEncoding};
+use midnight_curves as mc;
+use midnight_curves::serde::SerdeObject;
+use num_bigint::BigUint;
+use vcore::{big, Ctx, Level};
+
+use ext::BaseConv;
+use generic::{AffOps, BinFn, Bind, Codec, Sc, Tasks};
+use model::{Dec, Fmt, MCurve, FE, MP};
+
+pub fn arr<const N: usize>(v: &[u8]) -> [u8; N] {
+    v.try_into().expect("length")
+}
+
+/// Sentinel that never equals a model point.
+pub fn nowhere() -> MP {
+    MP::At(vec![], vec![])
+}
+
+pub fn dec_or_nowhere(d: Dec) -> MP {
+    match d {
+        Dec::Ok(p) => p,
+        _ => nowhere(),
+    }
+}
+
+pub fn repr_from<R: Default + AsMut<[u8]>>(b: &[u8]) -> R {
+    let mut r = R::default();
+    r.as_mut().copy_from_slice(b);
+    r
+}
+
+fn json_array(b: &[u8]) -> Vec<u8> {
+    format!("[{}]", b.iter().map(|x| x.to_string()).collect::<Vec<_>>().join(",")).into_bytes()
+}
+fn json_hex(b: &[u8]) -> Vec<u8> {
+    format!("\"{}\"", vcore::hex(b)).into_bytes()
+}
+fn unjson_array(j: &[u8]) -> Vec<u8> {
+    serde_json::from_slice::<Vec<u8>>(j).expect("json array of bytes")
+}
+fn unjson_hex(j: &[u8]) -> Vec<u8> {
+    let s: String = serde_json::from_slice(j).expect("json string");
+    (0..s.len() / 2).map(|i| u8::from_str_radix(&s[2 * i..2 * i + 2], 16).expect("hex")).collect()
+}
+
+// ---------------------------------------------------------------------------------------------
+// field conversions (public byte accessors of the field types)
+// ---------------------------------------------------------------------------------------------
+
+pub fn bls_fp_fe(x: &mc::Fp) -> FE {
+    vec![big::from_le(&x.to_bytes_le())]
+}
+pub fn bls_fe_fp(f: &FE) -> mc::Fp {
+    mc::Fp::from_bytes_le(&arr(&big::to_le(&f[0], 48))).unwrap()
+}
+pub fn bls_fp2_fe(x: &mc::bls12_381::Fp2) -> FE {
+    vec![big::from_le(&x.c0().to_bytes_le()), big::from_le(&x.c1().to_bytes_le())]
+}
+pub fn bls_fe_fp2(f: &FE) -> mc::bls12_381::Fp2 {
+    mc::bls12_381::Fp2::new(bls_fe_fp(&vec![f[0].clone()]), bls_fe_fp(&vec![f[1].clone()]))
+}
+pub fn bls_scalar(k: &BigUint) -> mc::Fq {
+    mc::Fq::from_bytes_le(&arr(&big::to_le(k, 32))).unwrap()
+}
+pub fn bn_fq_fe(x: &mc::bn256::Fq) -> FE {
+    vec![big::from_le(&x.to_bytes())]
+}
+pub fn bn_fe_fq(f: &FE) -> mc::bn256::Fq {
+    mc::bn256::Fq::from_bytes(&arr(&big::to_le(&f[0], 32))).unwrap()
+}
+pub fn bn_fq2_fe(x: &mc::bn256::Fq2) -> FE {
+    let b = x.to_bytes();
+    vec![big::from_le(&b[..32]), big::from_le(&b[32..])]
+}
+pub fn bn_fe_fq2(f: &FE) -> mc::bn256::Fq2 {
+    mc::bn256::Fq2::new(bn_fe_fq(&vec![f[0].clone()]), bn_fe_fq(&vec![f[1].clone()]))
+}
+pub fn bn_scalar(k: &BigUint) -> mc::bn256::Fr {
+    mc::bn256::Fr::from_bytes(&arr(&big::to_le(k, 32))).unwrap()
+}
+pub fn jj_base_fe(x: &mc::Fq) -> FE {
+    vec![big::from_le(&x.to_bytes_le())]
+}
+pub fn jj_fe_base(f: &FE) -> mc::Fq {
+    bls_scalar(&f[0])
+}
+pub fn jj_scalar(k: &BigUint) -> mc::Fr {
+    mc::Fr::from_bytes(&arr(&big::to_le(k, 32))).unwrap()
+}
+pub fn k_fp_fe(x: &mc::k256::Fp) -> FE {
+    vec![big::from_be(x.to_bytes().as_slice())]
+}
+pub fn k_fe_fp(f: &FE) -> mc::k256::Fp {
+    mc::k256::Fp::from_bytes(&k256::FieldBytes::from(arr::<32>(&big::to_be(&f[0], 32)))).unwrap()
+}
+pub fn k_scalar(k: &BigUint) -> mc::k256::Fq {
+    <mc::k256::Fq as PrimeField>::from_repr(k256::FieldBytes::from(arr::<32>(&big::to_be(k, 32)))).unwrap()
+}
+pub fn ed_fp_fe(x: &mc::curve25519::Fp) -> FE {
+    vec![big::from_le(&x.to_bytes())]
+}
+pub fn ed_fe_fp(f: &FE) -> mc::curve25519::Fp {
+    mc::curve25519::Fp::from_bytes(&arr(&big::to_le(&f[0], 32))).unwrap()
+}
+pub fn ed_scalar(k: &BigUint) -> mc::curve25519::Scalar {
+    mc::curve25519::Scalar::from_bytes_mod_order(arr(&big::to_le(k, 32)))
+}
+
+// ---------------------------------------------------------------------------------------------
+// short Weierstrass types with the CurveExt / CurveAffine API (BLS12-381, BN254)
+// ---------------------------------------------------------------------------------------------
+
+macro_rules! common_bin {
+    ($G:ty) => {
+        vec![
+            ("&P + &Q", false, (|p, q| p + q) as BinFn<$G>),
+            ("&P + Q", false, |p, q| p + *q),
+            ("&P + &Qa", false, |p, q| p + &q.to_affine()),
+            ("&P + Qa", false, |p, q| p + q.to_affine()),
+            ("&Pa + &Q", false, |p, q| &p.to_affine() + q),
+            ("&Pa + Q", false, |p, q| &p.to_affine() + *q),
+            ("Pa + &Q", false, |p, q| p.to_affine() + q),
+            ("Pa + Q", false, |p, q| p.to_affine() + *q),
+            ("Pa + Qa", false, |p, q| p.to_affine() + q.to_affine()),
+            ("&P - &Q", true, |p, q| p - q),
+            ("&P - Q", true, |p, q| p - *q),
+            ("&P - &Qa", true, |p, q| p - &q.to_affine()),
+            ("&P - Qa", true, |p, q| p - q.to_affine()),
+            ("&Pa - &Q", true, |p, q| &p.to_affine() - q),
+            ("&Pa - Q", true, |p, q| &p.to_affine() - *q),
+            ("Pa - &Q", true, |p, q| p.to_affine() - q),
+            ("Pa - Q", true, |p, q| p.to_affine() - *q),
+            ("Pa - Qa", true, |p, q| p.to_affine() - q.to_affine()),
+        ]
+    };
+}
+
+macro_rules! common_neg {
+    ($G:ty) => {
+        vec![("-&P", (|p| -p) as fn(&$G) -> $G), ("-Pa", |p| (-p.to_affine()).into()), ("-&Pa", |p| (-&p.to_affine()).into())]
+    };
+}
+
+macro_rules! common_mul {
+    ($B:ty, $G:ty) => {
+        vec![
+            ("&P * &k", (|p, s| p * s) as fn(&$G, &Sc<$B>) -> $G),
+            ("&P * k", |p, s| p * *s),
+            ("Pa * k", |p, s| p.to_affine() * *s),
+            ("Pa * &k", |p, s| p.to_affine() * s),
+            ("&Pa * &k", |p, s| &p.to_affine() * s),
+            ("&Pa * k", |p, s| &p.to_affine() * *s),
+        ]
+    };
+}
+
+macro_rules! prime_affine_ops {
+    ($B:ty, $A:ty, $to_m:expr) => {
+        impl AffOps for $B {
+            type A = $A;
+            fn a_to_m(a: &$A) -> MP {
+                ($to_m)(a)
+            }
+            fn a_to_curve(a: &$A) -> Self::G {
+                (*a).into()
+            }
+            fn a_identity() -> $A {
+                <$A as PrimeCurveAffine>::identity()
+            }
+            fn a_generator() -> Option<$A> {
+                Some(<$A as PrimeCurveAffine>::generator())
+            }
+            fn a_is_identity(a: &$A) -> Option<bool> {
+                Some(bool::from(PrimeCurveAffine::is_identity(a)))
+            }
+            fn a_neg(a: &$A) -> Option<$A> {
+                Some(-*a)
+            }
+            fn a_mul(a: &$A, s: &Sc<Self>) -> Option<Self::G> {
+                Some(*a * *s)
+            }
+        }
+    };
+}
+
+// ---- BLS12-381 --------------------------------------------------------------------------------
+
+pub struct BlsG1;
+pub struct BlsG2;
+
+fn bls_g1a_m(a: &mc::G1Affine) -> MP {
+    if bool::from(PrimeCurveAffine::is_identity(a)) {
+        MP::Inf
+    } else {
+        MP::At(bls_fp_fe(&a.x()), bls_fp_fe(&a.y()))
+    }
+}
+fn bls_g2a_m(a: &mc::G2Affine) -> MP {
+    if bool::from(PrimeCurveAffine::is_identity(a)) {
+        MP::Inf
+    } else {
+        MP::At(bls_fp2_fe(&a.x()), bls_fp2_fe(&a.y()))
+    }
+}
+
+macro_rules! bls_bind {
+    ($B:ident, $name:literal, $G:ty, $A:ty, $curve:path, $am:path, $fe:path, $base:path, $BaseT:ty) => {
+        impl Bind for $B {
+            type G = $G;
+            const NAME: &'static str = $name;
+            const COFACTOR_EXTRAS: bool = true;
+            fn curve() -> MCurve {
+                $curve()
+            }
+            fn to_m(g: &$G) -> MP {
+                $am(&g.to_affine())
+            }
+            fn second_paths(g: &$G) -> Vec<(&'static str, MP)> {
+                let cv = $curve();
+                let u = g.to_affine().to_uncompressed();
+                let f = &cv.f;
+                // blst keeps Jacobian coordinates: x = X/Z^2, y = Y/Z^3
+                let (x, y, z) = ($fe(&g.x()), $fe(&g.y()), $fe(&g.z()));
+                let jac = if f.is_zero(&z) {
+                    MP::Inf
+                } else {
+                    let zi = f.inv(&z).unwrap();
+                    let zi2 = f.sqr(&zi);
+                    MP::At(f.mul(&x, &zi2), f.mul(&y, &f.mul(&zi2, &zi)))
+                };
+                vec![("to_uncompressed bytes", dec_or_nowhere(Fmt::BlsU.decode(&cv, u.as_ref()))), ("projective x()/y()/z() as Jacobian", jac)]
+            }
+            fn scalar(k: &BigUint) -> mc::Fq {
+                bls_scalar(k)
+            }
+            fn ct_eq(a: &$G, b: &$G) -> Option<bool> {
+                Some(bool::from(subtle::ConstantTimeEq::ct_eq(a, b)))
+            }
+            fn from_m(p: &MP) -> Option<$G> {
+                match p {
+                    MP::Inf => Some(<$G>::identity()),
+                    // on-curve-only constructor: does not check the subgroup
+                    MP::At(x, y) => Option::<$A>::from(<$A as mc::CurveAffine>::from_xy($base(x), $base(y))).map(Into::into),
+                }
+            }
+            fn extra_bin() -> Vec<(&'static str, bool, BinFn<$G>)> {
+                common_bin!($G)
+            }
+            fn extra_neg() -> Vec<(&'static str, fn(&$G) -> $G)> {
+                common_neg!($G)
+            }
+            fn extra_mul() -> Vec<(&'static str, fn(&$G, &mc::Fq) -> $G)> {
+                let mut v = common_mul!($B, $G);
+                v.push(("Pa *= k", |p, s| {
+                    let mut a = p.to_affine();
+                    a *= *s;
+                    a.into()
+                }));
+                v.push(("Pa *= &k", |p, s| {
+                    let mut a = p.to_affine();
+                    a *= s;
+                    a.into()
+                }));
+                v.push(("Wnaf::scalar(k).base(P)", |p, s| {
+                    let mut w: group::Wnaf<(), Vec<$G>, Vec<i64>> = group::Wnaf::new();
+                    w.scalar(s).base(*p)
+                }));
+                v.push(("Wnaf::base(P).scalar(k)", |p, s| {
+                    let mut w: group::Wnaf<(), Vec<$G>, Vec<i64>> = group::Wnaf::new();
+                    w.base(*p, 1).scalar(s)
+                }));
+                v
+            }
+            fn codecs() -> Vec<Codec<$G>> {
+                type U = <$A as UncompressedEncoding>::Uncompressed;
+                vec![
+                    Codec {
+                        name: "projective.from_bytes",
+                        fmt: Fmt::BlsC,
+                        promises_subgroup: true,
+                        enc: |g| g.to_bytes().as_ref().to_vec(),
+                        dec: |b| Option::<$G>::from(<$G>::from_bytes(&repr_from(b))).map(|g| (<$B>::to_m(&g), g.to_bytes().as_ref().to_vec())),
+                        dec_unchecked: Some(|b| Option::<$G>::from(<$G>::from_bytes_unchecked(&repr_from(b))).map(|g| <$B>::to_m(&g))),
+                    },
+                    Codec {
+                        name: "affine.from_bytes",
+                        fmt: Fmt::BlsC,
+                        promises_subgroup: true,
+                        enc: |g| g.to_affine().to_bytes().as_ref().to_vec(),
+                        dec: |b| Option::<$A>::from(<$A>::from_bytes(&repr_from(b))).map(|a| ($am(&a), a.to_bytes().as_ref().to_vec())),
+                        dec_unchecked: Some(|b| Option::<$A>::from(<$A>::from_bytes_unchecked(&repr_from(b))).map(|a| $am(&a))),
+                    },
+                    Codec {
+                        name: "affine.from_uncompressed",
+                        fmt: Fmt::BlsU,
+                        // group::UncompressedEncoding: only the *_unchecked variant skips the subgroup check
+                        promises_subgroup: true,
+                        enc: |g| g.to_affine().to_uncompressed().as_ref().to_vec(),
+                        dec: |b| Option::<$A>::from(<$A as UncompressedEncoding>::from_uncompressed(&repr_from::<U>(b))).map(|a| ($am(&a), a.to_uncompressed().as_ref().to_vec())),
+                        dec_unchecked: Some(|b| Option::<$A>::from(<$A as UncompressedEncoding>::from_uncompressed_unchecked(&repr_from::<U>(b))).map(|a| $am(&a))),
+                    },
+                    Codec {
+                        name: "affine.from_raw_bytes",
+                        fmt: Fmt::BlsU,
+                        // read_raw's own error text: "Either not on curve, or not in subgroup"
+                        promises_subgroup: true,
+                        enc: |g| g.to_affine().to_raw_bytes(),
+                        dec: |b| <$A as SerdeObject>::from_raw_bytes(b).map(|a| ($am(&a), a.to_raw_bytes())),
+                        dec_unchecked: Some(|b| Some($am(&<$A as SerdeObject>::from_raw_bytes_unchecked(b)))),
+                    },
+                    Codec {
+                        name: "affine.read_raw",
+                        fmt: Fmt::BlsU,
+                        promises_subgroup: true,
+                        enc: |g| {
+                            let mut v = vec![];
+                            g.to_affine().write_raw(&mut v).unwrap();
+                            v
+                        },
+                        dec: |b| {
+                            let mut r = b;
+                            <$A as SerdeObject>::read_raw(&mut r).ok().map(|a| ($am(&a), a.to_raw_bytes()))
+                        },
+                        dec_unchecked: Some(|b| {
+                            let mut r = b;
+                            Some($am(&<$A as SerdeObject>::read_raw_unchecked(&mut r)))
+                        }),
+                    },
+                    Codec {
+                        name: "affine.serde_json",
+                        fmt: Fmt::BlsC,
+                        promises_subgroup: true,
+                        enc: |g| unjson_array(&serde_json::to_vec(&g.to_affine()).unwrap()),
+                        dec: |b| serde_json::from_slice::<$A>(&json_array(b)).ok().map(|a| ($am(&a), unjson_array(&serde_json::to_vec(&a).unwrap()))),
+                        dec_unchecked: None,
+                    },
+                    Codec {
+                        name: "projective.serde_json",
+                        fmt: Fmt::BlsC,
+                        promises_subgroup: true,
+                        enc: |g| unjson_array(&serde_json::to_vec(g).unwrap()),
+                        dec: |b| serde_json::from_slice::<$G>(&json_array(b)).ok().map(|g| (<$B>::to_m(&g), unjson_array(&serde_json::to_vec(&g).unwrap()))),
+                        dec_unchecked: None,
+                    },
+                ]
+            }
+        }
+        prime_affine_ops!($B, $A, $am);
+        impl BaseConv for $B {
+            type Base = $BaseT;
+            fn fe(b: &$BaseT) -> FE {
+                $fe(b)
+            }
+            fn base(f: &FE) -> $BaseT {
+                $base(f)
+            }
+        }
+    };
+}
+
+bls_bind!(BlsG1, "bls12-381-G1", mc::G1Projective, mc::G1Affine, model::bls_g1, bls_g1a_m, bls_fp_fe, bls_fe_fp, mc::Fp);
+bls_bind!(BlsG2, "bls12-381-G2", mc::G2Projective, mc::G2Affine, model::bls_g2, bls_g2a_m, bls_fp2_fe, bls_fe_fp2, mc::bls12_381::Fp2);
+
+// ---- BN254 ------------------------------------------------------------------------------------
+
+pub struct BnG1;
+pub struct BnG2;
+
+fn bn_g1a_m(a: &mc::bn256::G1Affine) -> MP {
+    if bool::from(PrimeCurveAffine::is_identity(a)) {
+        MP::Inf
+    } else {
+        MP::At(bn_fq_fe(&a.x), bn_fq_fe(&a.y))
+    }
+}
+fn bn_g2a_m(a: &mc::bn256::G2Affine) -> MP {
+    if bool::from(PrimeCurveAffine::is_identity(a)) {
+        MP::Inf
+    } else {
+        MP::At(bn_fq2_fe(&a.x), bn_fq2_fe(&a.y))
+    }
+}
+
+macro_rules! bn_bind {
+    ($B:ident, $name:literal, $G:ty, $A:ty, $curve:path, $am:path, $fe:path, $base:path, $BaseT:ty, $cof:expr, $promise:expr) => {
+        impl Bind for $B {
+            type G = $G;
+            const NAME: &'static str = $name;
+            const COFACTOR_EXTRAS: bool = $cof;
+            fn curve() -> MCurve {
+                $curve()
+            }
+            fn to_m(g: &$G) -> MP {
+                $am(&g.to_affine())
+            }
+            fn second_paths(g: &$G) -> Vec<(&'static str, MP)> {
+                let cv = $curve();
+                let f = &cv.f;
+                let u = g.to_affine().to_uncompressed();
+                // the derive-macro curves keep homogeneous coordinates: x = X/Z, y = Y/Z
+                let (x, y, z) = ($fe(&g.x), $fe(&g.y), $fe(&g.z));
+                let hom = if f.is_zero(&z) {
+                    MP::Inf
+                } else {
+                    let zi = f.inv(&z).unwrap();
+                    MP::At(f.mul(&x, &zi), f.mul(&y, &zi))
+                };
+                vec![("to_uncompressed bytes", dec_or_nowhere(Fmt::BnU.decode(&cv, u.as_ref()))), ("public fields x/y/z as homogeneous", hom)]
+            }
+            fn scalar(k: &BigUint) -> mc::bn256::Fr {
+                bn_scalar(k)
+            }
+            fn ct_eq(a: &$G, b: &$G) -> Option<bool> {
+                Some(bool::from(subtle::ConstantTimeEq::ct_eq(a, b)))
+            }
+            fn from_m(p: &MP) -> Option<$G> {
+                match p {
+                    MP::Inf => Some(<$G>::identity()),
+                    // public fields: no check at all
+                    MP::At(x, y) => {
+                        type AA = $A;
+                        Some(AA { x: $base(x), y: $base(y) }.into())
+                    }
+                }
+            }
+            fn extra_bin() -> Vec<(&'static str, bool, BinFn<$G>)> {
+                let mut v = common_bin!($G);
+                v.push(("&Pa + &Qa", false, |p, q| &p.to_affine() + &q.to_affine()));
+                v.push(("&Pa - &Qa", true, |p, q| &p.to_affine() - &q.to_affine()));
+                v
+            }
+            fn extra_neg() -> Vec<(&'static str, fn(&$G) -> $G)> {
+                common_neg!($G)
+            }
+            fn extra_mul() -> Vec<(&'static str, fn(&$G, &mc::bn256::Fr) -> $G)> {
+                common_mul!($B, $G)
+            }
+            fn codecs() -> Vec<Codec<$G>> {
+                type U = <$A as UncompressedEncoding>::Uncompressed;
+                vec![
+                    Codec {
+                        name: "projective.from_bytes",
+                        fmt: Fmt::BnC,
+                        promises_subgroup: $promise,
+                        enc: |g| g.to_bytes().as_ref().to_vec(),
+                        dec: |b| Option::<$G>::from(<$G>::from_bytes(&repr_from(b))).map(|g| (<$B>::to_m(&g), g.to_bytes().as_ref().to_vec())),
+                        dec_unchecked: Some(|b| Option::<$G>::from(<$G>::from_bytes_unchecked(&repr_from(b))).map(|g| <$B>::to_m(&g))),
+                    },
+                    Codec {
+                        name: "affine.from_bytes",
+                        fmt: Fmt::BnC,
+                        promises_subgroup: $promise,
+                        enc: |g| g.to_affine().to_bytes().as_ref().to_vec(),
+                        dec: |b| Option::<$A>::from(<$A>::from_bytes(&repr_from(b))).map(|a| ($am(&a), a.to_bytes().as_ref().to_vec())),
+                        dec_unchecked: Some(|b| Option::<$A>::from(<$A>::from_bytes_unchecked(&repr_from(b))).map(|a| $am(&a))),
+                    },
+                    Codec {
+                        name: "affine.from_uncompressed",
+                        fmt: Fmt::BnU,
+                        promises_subgroup: $promise,
+                        enc: |g| g.to_affine().to_uncompressed().as_ref().to_vec(),
+                        dec: |b| Option::<$A>::from(<$A as UncompressedEncoding>::from_uncompressed(&repr_from::<U>(b))).map(|a| ($am(&a), a.to_uncompressed().as_ref().to_vec())),
+                        dec_unchecked: Some(|b| Option::<$A>::from(<$A as UncompressedEncoding>::from_uncompressed_unchecked(&repr_from::<U>(b))).map(|a| $am(&a))),
+                    },
+                    Codec {
+                        name: "affine.from_raw_bytes",
+                        fmt: Fmt::BnRaw { proj: false },
+                        promises_subgroup: false,
+                        enc: |g| g.to_affine().to_raw_bytes(),
+                        dec: |b| <$A as SerdeObject>::from_raw_bytes(b).map(|a| ($am(&a), a.to_raw_bytes())),
+                        dec_unchecked: Some(|b| Some($am(&<$A as SerdeObject>::from_raw_bytes_unchecked(b)))),
+                    },
+                    Codec {
+                        name: "affine.read_raw",
+                        fmt: Fmt::BnRaw { proj: false },
+                        promises_subgroup: false,
+                        enc: |g| g.to_affine().to_raw_bytes(),
+                        dec: |b| {
+                            let mut r = b;
+                            <$A as SerdeObject>::read_raw(&mut r).ok().map(|a| ($am(&a), a.to_raw_bytes()))
+                        },
+                        dec_unchecked: Some(|b| {
+                            let mut r = b;
+                            Some($am(&<$A as SerdeObject>::read_raw_unchecked(&mut r)))
+                        }),
+                    },
+                    Codec {
+                        name: "projective.from_raw_bytes",
+                        fmt: Fmt::BnRaw { proj: true },
+                        promises_subgroup: false,
+                        enc: |g| g.to_raw_bytes(),
+                        dec: |b| <$G as SerdeObject>::from_raw_bytes(b).map(|g| (<$B>::to_m(&g), g.to_raw_bytes())),
+                        dec_unchecked: Some(|b| Some(<$B>::to_m(&<$G as SerdeObject>::from_raw_bytes_unchecked(b)))),
+                    },
+                    Codec {
+                        name: "projective.read_raw",
+                        fmt: Fmt::BnRaw { proj: true },
+                        promises_subgroup: false,
+                        enc: |g| g.to_raw_bytes(),
+                        dec: |b| {
+                            let mut r = b;
+                            <$G as SerdeObject>::read_raw(&mut r).ok().map(|g| (<$B>::to_m(&g), g.to_raw_bytes()))
+                        },
+                        dec_unchecked: Some(|b| {
+                            let mut r = b;
+                            Some(<$B>::to_m(&<$G as SerdeObject>::read_raw_unchecked(&mut r)))
+                        }),
+                    },
+                    Codec {
+                        name: "affine.serde_json",
+                        fmt: Fmt::BnC,
+                        promises_subgroup: $promise,
+                        enc: |g| unjson_hex(&serde_json::to_vec(&g.to_affine()).unwrap()),
+                        dec: |b| serde_json::from_slice::<$A>(&json_hex(b)).ok().map(|a| ($am(&a), unjson_hex(&serde_json::to_vec(&a).unwrap()))),
+                        dec_unchecked: None,
+                    },
+                    Codec {
+                        name: "projective.serde_json",
+                        fmt: Fmt::BnC,
+                        promises_subgroup: $promise,
+                        enc: |g| unjson_hex(&serde_json::to_vec(g).unwrap()),
+                        dec: |b| serde_json::from_slice::<$G>(&json_hex(b)).ok().map(|g| (<$B>::to_m(&g), unjson_hex(&serde_json::to_vec(&g).unwrap()))),
+                        dec_unchecked: None,
+                    },
+                ]
+            }
+        }
+        prime_affine_ops!($B, $A, $am);
+        impl BaseConv for $B {
+            type Base = $BaseT;
+            fn fe(b: &$BaseT) -> FE {
+                $fe(b)
+            }
+            fn base(f: &FE) -> $BaseT {
+                $base(f)
+            }
+        }
+    };
+}
+
+bn_bind!(BnG1, "bn254-G1", mc::bn256::G1, mc::bn256::G1Affine, model::bn_g1, bn_g1a_m, bn_fq_fe, bn_fe_fq, mc::bn256::Fq, false, false);
+// G2 implements PrimeGroup / PrimeCurveAffine: its checked decoders owe the prime-order subgroup
+bn_bind!(BnG2, "bn254-G2", mc::bn256::G2, mc::bn256::G2Affine, model::bn_g2, bn_g2a_m, bn_fq2_fe, bn_fe_fq2, mc::bn256::Fq2, true, true);
+
+// ---- Jubjub -----------------------------------------------------------------------------------
+
+pub struct JjExt;
+pub struct JjSub;
+
+pub fn jj_a_m(a: &mc::JubjubAffine) -> MP {
+    MP::At(jj_base_fe(&a.get_u()), jj_base_fe(&a.get_v()))
+}
+
+impl Bind for JjExt {
+    type G = mc::JubjubExtended;
+    const NAME: &'static str = "jubjub-extended";
+    const COFACTOR_EXTRAS: bool = true;
+    fn curve() -> MCurve {
+        model::jubjub()
+    }
+    fn to_m(g: &Self::G) -> MP {
+        jj_a_m(&mc::JubjubAffine::from(g))
+    }
+    fn second_paths(g: &Self::G) -> Vec<(&'static str, MP)> {
+        vec![("to_bytes", dec_or_nowhere(Fmt::EdY.decode(&model::jubjub(), &g.to_bytes())))]
+    }
+    fn scalar(k: &BigUint) -> mc::Fr {
+        jj_scalar(k)
+    }
+    fn ct_eq(a: &Self::G, b: &Self::G) -> Option<bool> {
+        Some(bool::from(subtle::ConstantTimeEq::ct_eq(a, b)))
+    }
+    fn from_m(p: &MP) -> Option<Self::G> {
+        match p {
+            MP::At(u, v) => Some(mc::JubjubAffine::from_raw_unchecked(jj_fe_base(u), jj_fe_base(v)).to_extended()),
+            MP::Inf => None,
+        }
+    }
+    fn extra_bin() -> Vec<(&'static str, bool, BinFn<Self::G>)> {
+        vec![
+            ("&P + &Q", false, |p, q| p + q),
+            ("&P + Q", false, |p, q| p + *q),
+            ("P + Q.to_niels()", false, |p, q| *p + q.to_niels()),
+            ("&P + &Q.to_niels()", false, |p, q| p + &q.to_niels()),
+            ("P += Q.to_niels()", false, |p, q| {
+                let mut t = *p;
+                t += q.to_niels();
+                t
+            }),
+            ("P + Qa.to_niels()", false, |p, q| *p + q.to_affine().to_niels()),
+            ("&P + &Qa.to_niels()", false, |p, q| p + &q.to_affine().to_niels()),
+            ("P += &Qa.to_niels()", false, |p, q| {
+                let mut t = *p;
+                t += &q.to_affine().to_niels();
+                t
+            }),
+            ("&P + &Qa", false, |p, q| p + &q.to_affine()),
+            ("Pa + Qa", false, |p, q| p.to_affine() + q.to_affine()),
+            ("&Pa + &Qa", false, |p, q| &p.to_affine() + &q.to_affine()),
+            ("Pa.to_extended() + Q", false, |p, q| p.to_affine().to_extended() + *q),
+            ("&P - &Q", true, |p, q| p - q),
+            ("&P - Q", true, |p, q| p - *q),
+            ("P - Q.to_niels()", true, |p, q| *p - q.to_niels()),
+            ("&P - &Q.to_niels()", true, |p, q| p - &q.to_niels()),
+            ("P -= Q.to_niels()", true, |p, q| {
+                let mut t = *p;
+                t -= q.to_niels();
+                t
+            }),
+            ("P - Qa.to_niels()", true, |p, q| *p - q.to_affine().to_niels()),
+            ("P -= &Qa.to_niels()", true, |p, q| {
+                let mut t = *p;
+                t -= &q.to_affine().to_niels();
+                t
+            }),
+            ("&P - &Qa", true, |p, q| p - &q.to_affine()),
+            ("Pa - Qa", true, |p, q| p.to_affine() - q.to_affine()),
+            ("&Pa - &Qa", true, |p, q| &p.to_affine() - &q.to_affine()),
+        ]
+    }
+    fn extra_neg() -> Vec<(&'static str, fn(&Self::G) -> Self::G)> {
+        vec![("-Pa", |p| (-p.to_affine()).into())]
+    }
+    fn extra_mul() -> Vec<(&'static str, fn(&Self::G, &mc::Fr) -> Self::G)> {
+        vec![
+            ("&P * &k", |p, s| p * s),
+            ("&P * k", |p, s| p * *s),
+            ("Pa * k", |p, s| p.to_affine() * *s),
+            ("&Pa * &k", |p, s| &p.to_affine() * s),
+            ("P.to_niels() * k", |p, s| p.to_niels() * *s),
+            ("&P.to_niels() * &k", |p, s| &p.to_niels() * s),
+            ("Pa.to_niels() * k", |p, s| p.to_affine().to_niels() * *s),
+            ("P.to_niels().multiply_bits(k)", |p, s| p.to_niels().multiply_bits(&s.to_bytes())),
+            ("Pa.to_niels().multiply_bits(k)", |p, s| p.to_affine().to_niels().multiply_bits(&s.to_bytes())),
+        ]
+    }
+    fn codecs() -> Vec<Codec<Self::G>> {
+        vec![
+            Codec {
+                name: "extended.from_bytes",
+                fmt: Fmt::EdY,
+                // documented: fails iff not on the curve or non-canonical (cofactor type)
+                promises_subgroup: false,
+                enc: |g| g.to_bytes().to_vec(),
+                dec: |b| Option::<mc::JubjubExtended>::from(mc::JubjubExtended::from_bytes(&arr(b))).map(|g| (JjExt::to_m(&g), g.to_bytes().to_vec())),
+                dec_unchecked: Some(|b| Option::<mc::JubjubExtended>::from(mc::JubjubExtended::from_bytes_unchecked(&arr(b))).map(|g| JjExt::to_m(&g))),
+            },
+            Codec {
+                name: "affine.from_bytes",
+                fmt: Fmt::EdY,
+                promises_subgroup: false,
+                enc: |g| <mc::JubjubAffine as GroupEncoding>::to_bytes(&g.to_affine()).to_vec(),
+                dec: |b| Option::<mc::JubjubAffine>::from(<mc::JubjubAffine as GroupEncoding>::from_bytes(&arr(b))).map(|a| (jj_a_m(&a), a.to_bytes().to_vec())),
+                dec_unchecked: Some(|b| Option::<mc::JubjubAffine>::from(<mc::JubjubAffine as GroupEncoding>::from_bytes_unchecked(&arr(b))).map(|a| jj_a_m(&a))),
+            },
+            Codec {
+                name: "affine.batch_from_bytes",
+                fmt: Fmt::EdY,
+                promises_subgroup: false,
+                enc: |g| g.to_affine().to_bytes().to_vec(),
+                dec: |b| {
+                    // the decoded input sits between two valid encodings in the batch
+                    let gen = <mc::JubjubAffine as CofactorCurveAffine>::generator().to_bytes();
+                    let r = mc::JubjubAffine::batch_from_bytes([gen, arr(b), gen].into_iter());
+                    assert_eq!(r.len(), 3);
+                    Option::<mc::JubjubAffine>::from(r[1]).map(|a| (jj_a_m(&a), a.to_bytes().to_vec()))
+                },
+                dec_unchecked: None,
+            },
+        ]
+    }
+}
+
+impl AffOps for JjExt {
+    type A = mc::JubjubAffine;
+    fn a_to_m(a: &Self::A) -> MP {
+        jj_a_m(a)
+    }
+    fn a_to_curve(a: &Self::A) -> Self::G {
+        (*a).into()
+    }
+    fn a_identity() -> Self::A {
+        mc::JubjubAffine::identity()
+    }
+    fn a_generator() -> Option<Self::A> {
+        Some(<mc::JubjubAffine as CofactorCurveAffine>::generator())
+    }
+    fn a_is_identity(a: &Self::A) -> Option<bool> {
+        Some(bool::from(a.is_identity()))
+    }
+    fn a_neg(a: &Self::A) -> Option<Self::A> {
+        Some(-*a)
+    }
+    fn a_mul(a: &Self::A, s: &mc::Fr) -> Option<Self::G> {
+        Some(*a * *s)
+    }
+}
+
+impl Bind for JjSub {
+    type G = mc::JubjubSubgroup;
+    const NAME: &'static str = "jubjub-subgroup";
+    // `from_raw_unchecked` builds values outside the subgroup
+    const COFACTOR_EXTRAS: bool = true;
+    fn curve() -> MCurve {
+        model::jubjub()
+    }
+    fn to_m(g: &Self::G) -> MP {
+        JjExt::to_m(&mc::JubjubExtended::from(*g))
+    }
+    fn second_paths(g: &Self::G) -> Vec<(&'static str, MP)> {
+        vec![("to_bytes", dec_or_nowhere(Fmt::EdY.decode(&model::jubjub(), &g.to_bytes())))]
+    }
+    fn scalar(k: &BigUint) -> mc::Fr {
+        jj_scalar(k)
+    }
+    fn from_m(p: &MP) -> Option<Self::G> {
+        match p {
+            MP::At(u, v) => Some(mc::JubjubSubgroup::from_raw_unchecked(jj_fe_base(u), jj_fe_base(v))),
+            MP::Inf => None,
+        }
+    }
+    fn extra_bin() -> Vec<(&'static str, bool, BinFn<Self::G>)> {
+        vec![("&P + &Q", false, |p, q| p + q), ("&P + Q", false, |p, q| p + *q), ("&P - &Q", true, |p, q| p - q), ("&P - Q", true, |p, q| p - *q)]
+    }
+    fn extra_neg() -> Vec<(&'static str, fn(&Self::G) -> Self::G)> {
+        vec![("-&P", |p| -p)]
+    }
+    fn extra_mul() -> Vec<(&'static str, fn(&Self::G, &mc::Fr) -> Self::G)> {
+        vec![("&P * &k", |p, s| p * s), ("&P * k", |p, s| p * *s)]
+    }
+    fn codecs() -> Vec<Codec<Self::G>> {
+        vec![Codec {
+            name: "subgroup.from_bytes",
+            fmt: Fmt::EdY,
+            promises_subgroup: true,
+            enc: |g| g.to_bytes().to_vec(),
+            dec: |b| Option::<mc::JubjubSubgroup>::from(mc::JubjubSubgroup::from_bytes(&arr(b))).map(|g| (JjSub::to_m(&g), g.to_bytes().to_vec())),
+            dec_unchecked: Some(|b| Option::<mc::JubjubSubgroup>::from(mc::JubjubSubgroup::from_bytes_unchecked(&arr(b))).map(|g| JjSub::to_m(&g))),
+        }]
+    }
+}
+
+// ---- secp256k1 --------------------------------------------------------------------------------
+
+pub struct Secp;
+
+pub fn k_a_m(a: &mc::k256::K256Affine) -> MP {
+    if *a == mc::k256::K256Affine::identity() {
+        MP::Inf
+    } else {
+        MP::At(k_fp_fe(&a.x()), k_fp_fe(&a.y()))
+    }
+}
+
+impl Bind for Secp {
+    type G = mc::k256::K256;
+    const NAME: &'static str = "secp256k1";
+    fn curve() -> MCurve {
+        model::secp256k1()
+    }
+    fn to_m(g: &Self::G) -> MP {
+        k_a_m(&g.to_affine())
+    }
+    fn second_paths(g: &Self::G) -> Vec<(&'static str, MP)> {
+        vec![("to_bytes (SEC1)", dec_or_nowhere(Fmt::Sec1C.decode(&model::secp256k1(), g.to_bytes().as_ref())))]
+    }
+    fn scalar(k: &BigUint) -> mc::k256::Fq {
+        k_scalar(k)
+    }
+    fn ct_eq(a: &Self::G, b: &Self::G) -> Option<bool> {
+        Some(bool::from(subtle::ConstantTimeEq::ct_eq(a, b)))
+    }
+    fn extra_neg() -> Vec<(&'static str, fn(&Self::G) -> Self::G)> {
+        vec![("-&P", |p| -p)]
+    }
+    fn extra_mul() -> Vec<(&'static str, fn(&Self::G, &mc::k256::Fq) -> Self::G)> {
+        vec![("k * P", |p, s| *s * *p), ("k * &P", |p, s| *s * p)]
+    }
+    fn codecs() -> Vec<Codec<Self::G>> {
+        type K = mc::k256::K256;
+        type KA = mc::k256::K256Affine;
+        vec![
+            Codec {
+                name: "projective.from_bytes",
+                fmt: Fmt::Sec1C,
+                promises_subgroup: false,
+                enc: |g| g.to_bytes().as_ref().to_vec(),
+                dec: |b| Option::<K>::from(K::from_bytes(&repr_from(b))).map(|g| (Secp::to_m(&g), g.to_bytes().as_ref().to_vec())),
+                dec_unchecked: Some(|b| Option::<K>::from(K::from_bytes_unchecked(&repr_from(b))).map(|g| Secp::to_m(&g))),
+            },
+            Codec {
+                name: "affine.from_bytes",
+                fmt: Fmt::Sec1C,
+                promises_subgroup: false,
+                enc: |g| g.to_affine().to_bytes().as_ref().to_vec(),
+                dec: |b| Option::<KA>::from(KA::from_bytes(&repr_from(b))).map(|a| (k_a_m(&a), a.to_bytes().as_ref().to_vec())),
+                dec_unchecked: Some(|b| Option::<KA>::from(KA::from_bytes_unchecked(&repr_from(b))).map(|a| k_a_m(&a))),
+            },
+        ]
+    }
+}
+
+impl AffOps for Secp {
+    type A = mc::k256::K256Affine;
+    fn a_to_m(a: &Self::A) -> MP {
+        k_a_m(a)
+    }
+    fn a_to_curve(a: &Self::A) -> Self::G {
+        (*a).into()
+    }
+    fn a_identity() -> Self::A {
+        mc::k256::K256Affine::identity()
+    }
+    fn a_generator() -> Option<Self::A> {
+        Some(mc::k256::K256Affine::generator())
+    }
+}
+
+// ---- Curve25519 -------------------------------------------------------------------------------
+
+pub struct Ed;
+pub struct EdSub;
+
+pub fn ed_a_m(a: &mc::curve25519::Curve25519Affine) -> MP {
+    MP::At(ed_fp_fe(a.x()), ed_fp_fe(a.y()))
+}
+
+impl Bind for Ed {
+    type G = mc::curve25519::Curve25519;
+    const NAME: &'static str = "curve25519";
+    const COFACTOR_EXTRAS: bool = true;
+    fn curve() -> MCurve {
+        model::ed25519()
+    }
+    fn to_m(g: &Self::G) -> MP {
+        ed_a_m(&g.to_affine())
+    }
+    fn second_paths(g: &Self::G) -> Vec<(&'static str, MP)> {
+        vec![("to_bytes", dec_or_nowhere(Fmt::EdY.decode(&model::ed25519(), &g.to_bytes())))]
+    }
+    fn scalar(k: &BigUint) -> mc::curve25519::Scalar {
+        ed_scalar(k)
+    }
+    fn ct_eq(a: &Self::G, b: &Self::G) -> Option<bool> {
+        Some(bool::from(subtle::ConstantTimeEq::ct_eq(a, b)))
+    }
+    fn from_m(p: &MP) -> Option<Self::G> {
+        // the only constructor from coordinates: decompression (accepts every curve point)
+        let b = Fmt::EdY.encode(&model::ed25519(), p)?;
+        Option::from(mc::curve25519::Curve25519::from_bytes(&arr(&b)))
+    }
+    fn extra_bin() -> Vec<(&'static str, bool, BinFn<Self::G>)> {
+        vec![("&P + &Q", false, |p, q| p + q), ("&P + Q", false, |p, q| p + *q)]
+    }
+    fn extra_neg() -> Vec<(&'static str, fn(&Self::G) -> Self::G)> {
+        vec![("-&P", |p| -p)]
+    }
+    fn extra_mul() -> Vec<(&'static str, fn(&Self::G, &mc::curve25519::Scalar) -> Self::G)> {
+        vec![("k * P", |p, s| *s * *p), ("k * &P", |p, s| *s * p)]
+    }
+    fn codecs() -> Vec<Codec<Self::G>> {
+        type C = mc::curve25519::Curve25519;
+        type CA = mc::curve25519::Curve25519Affine;
+        vec![
+            Codec {
+                name: "projective.from_bytes",
+                fmt: Fmt::EdY,
+                promises_subgroup: false,
+                enc: |g| g.to_bytes().to_vec(),
+                dec: |b| Option::<C>::from(C::from_bytes(&arr(b))).map(|g| (Ed::to_m(&g), g.to_bytes().to_vec())),
+                dec_unchecked: Some(|b| Option::<C>::from(C::from_bytes_unchecked(&arr(b))).map(|g| Ed::to_m(&g))),
+            },
+            Codec {
+                name: "affine.from_bytes",
+                fmt: Fmt::EdY,
+                promises_subgroup: false,
+                enc: |g| g.to_affine().to_bytes().to_vec(),
+                dec: |b| Option::<CA>::from(CA::from_bytes(&arr(b))).map(|a| (ed_a_m(&a), a.to_bytes().to_vec())),
+                dec_unchecked: Some(|b| Option::<CA>::from(CA::from_bytes_unchecked(&arr(b))).map(|a| ed_a_m(&a))),
+            },
+        ]
+    }
+}
+
+impl AffOps for Ed {
+    type A = mc::curve25519::Curve25519Affine;
+    fn a_to_m(a: &Self::A) -> MP {
+        ed_a_m(a)
+    }
+    fn a_to_curve(a: &Self::A) -> Self::G {
+        (*a).into()
+    }
+    fn a_identity() -> Self::A {
+        mc::curve25519::Curve25519Affine::default()
+    }
+}
+
+impl Bind for EdSub {
+    type G = mc::curve25519::Curve25519Subgroup;
+    const NAME: &'static str = "curve25519-subgroup";
+    fn curve() -> MCurve {
+        model::ed25519()
+    }
+    fn to_m(g: &Self::G) -> MP {
+        Ed::to_m(&mc::curve25519::Curve25519::from(*g))
+    }
+    fn scalar(k: &BigUint) -> mc::curve25519::Scalar {
+        ed_scalar(k)
+    }
+    fn ct_eq(a: &Self::G, b: &Self::G) -> Option<bool> {
+        Some(bool::from(subtle::ConstantTimeEq::ct_eq(a, b)))
+    }
+    fn extra_bin() -> Vec<(&'static str, bool, BinFn<Self::G>)> {
+        vec![("&P + &Q", false, |p, q| p + q), ("&P + Q", false, |p, q| p + *q)]
+    }
+    fn extra_neg() -> Vec<(&'static str, fn(&Self::G) -> Self::G)> {
+        vec![("-&P", |p| -p)]
+    }
+    fn extra_mul() -> Vec<(&'static str, fn(&Self::G, &mc::curve25519::Scalar) -> Self::G)> {
+        vec![("k * P", |p, s| *s * *p), ("k * &P", |p, s| *s * p)]
+    }
+}
+
+// ---------------------------------------------------------------------------------------------
+
+fn main() {
+    let mut cx = Ctx::from_args("C11", Level::Exploration);
+    cx.set_rule(
+        "complete enumeration, per curve type, of: point alphabet {O, G, 2G, -G, 3 seeded, and on cofactor curves \
+         N (random non-subgroup point), its cofactor component, small-order points} ^2 (ordered pairs) x every \
+         operator impl (owned/ref, assign, mixed projective/affine, Niels forms) for add and sub; the alphabet x \
+         {double, neg, is_identity, ==, ct_eq on three representations of each operand, conditional_select, \
+         to_affine, from affine, batch_normalize (whole list, reversed, empty, all-identity), sum over diagonal \
+         3-lists / singleton / empty}; alphabet x scalar alphabet {0,1,2,r-1,r-2,(r-1)/2, 2^k, seeded} x every Mul \
+         impl (+ wNAF, multiply_bits); CurveExt/CurveAffine coordinate API on the alphabet; per decoder: round trip \
+         of the alphabet, a crafted list (every flag value, non-canonical coordinates, off-curve, non-subgroup, \
+         x=0, truncated forms), seeded random strings, single-bit flips of the encodings of G, s0 and O (quick: \
+         one bit per byte + all bits of the flag byte; thorough: all bits). Oracle: affine group law over big \
+         integers and a specification-level decoder. An evaluation is non-trivial when no operand is the identity \
+         / zero scalar; decoder evaluations are all counted as non-trivial. Keys are unique.",
+    );
+    cx.assume("the binding subject -> model goes through to_affine() and the public coordinate accessors (BLS: x()/y() + Fp::to_bytes_le; BN254: public fields + Fq::to_bytes; Jubjub: get_u()/get_v(); secp256k1: x()/y(); Curve25519: Curve25519Affine::x()/y()); each is cross-checked per alphabet point against the bytes of an encoding and, where raw projective coordinates are public, against X/Z^2,Y/Z^3 (blst) resp. X/Z,Y/Z (derive-macro curves)");
+    cx.assume("field arithmetic of the subject is out of scope here (other checks); the model uses num-bigint with moduli and curve constants taken from the standards, not from the subject");
+    cx.assume("a checked decoder owes subgroup membership where its documentation or its trait says so: BLS12-381 compressed and uncompressed (group::UncompressedEncoding documents only the *_unchecked variant as skipping the subgroup check; SerdeObject::read_raw reports 'not in subgroup'), JubjubSubgroup, BN254 G2 (implements PrimeGroup / PrimeCurveAffine). Jubjub extended/affine, Curve25519 and the raw BN254 formats promise on-curve + canonical only");
+    cx.assume("seeded representatives come from VERIF_SEED; the enumeration over the alphabets is complete");
+    cx.assume("hash_to_curve, multi_exp / MSM and pairings belong to other properties and are not exercised here");
+
+    let mut tasks = Tasks::default();
+    let thorough = cx.tier.is_thorough();
+    let mut seed_rng = cx.rng("c11-random-strings");
+
+    macro_rules! full {
+        ($B:ty) => {{
+            let al = generic::alphabet::<$B>(&mut cx);
+            generic::group_tasks::<$B>(&mut tasks, &al);
+            generic::curve_tasks::<$B>(&mut tasks, &al);
+            generic::codec_tasks::<$B>(&mut tasks, &al, thorough, &mut seed_rng);
+            al
+        }};
+    }
+    let al = full!(BlsG1);
+    ext::ext_tasks::<BlsG1, mc::G1Projective>(&mut tasks, &al);
+    specific::bls_tasks::<BlsG1>(&mut tasks, &al, |a| bool::from(a.is_torsion_free()));
+    let al = full!(BlsG2);
+    ext::ext_tasks::<BlsG2, mc::G2Projective>(&mut tasks, &al);
+    specific::bls_tasks::<BlsG2>(&mut tasks, &al, |a| bool::from(a.is_torsion_free()));
+    let al = full!(BnG1);
+    ext::ext_tasks::<BnG1, mc::bn256::G1>(&mut tasks, &al);
+    specific::bn_g1_tasks(&mut tasks, &al);
+    let al = full!(BnG2);
+    ext::ext_tasks::<BnG2, mc::bn256::G2>(&mut tasks, &al);
+    specific::bn_g2_tasks(&mut tasks, &al, &mut cx);
+    let al_ext = full!(JjExt);
+    let al_sub = generic::alphabet::<JjSub>(&mut cx);
+    generic::group_tasks::<JjSub>(&mut tasks, &al_sub);
+    generic::codec_tasks::<JjSub>(&mut tasks, &al_sub, thorough, &mut seed_rng);
+    specific::jubjub_tasks(&mut tasks, &al_ext, &al_sub);
+    let al = full!(Secp);
+    specific::secp_tasks(&mut tasks, &al);
+    let al = full!(Ed);
+    specific::ed_tasks(&mut tasks, &al);
+    let al_s = generic::alphabet::<EdSub>(&mut cx);
+    generic::group_tasks::<EdSub>(&mut tasks, &al_s);
+    specific::constants(&mut cx);
+
+    // run: one run_cases call per group so that all types share the worker pool
+    let mut order: Vec<String> = vec![];
+    for (g, _, _) in &tasks.0 {
+        if !order.contains(g) {
+            order.push(g.clone());
+        }
+    }
+    let mut by_group: std::collections::BTreeMap<String, Vec<(String, generic::Task)>> = Default::default();
+    for (g, k, t) in tasks.0 {
+        by_group.entry(g).or_default().push((k, t));
+    }
+    for g in order {
+        let cases = by_group.remove(&g).unwrap();
+        cx.run_cases(&g, &cases, |t| t());
+    }
+
+    // ---- anti-vacuity
+    for ty in ["bls12-381-G1", "bls12-381-G2", "bn254-G2", "jubjub-extended", "jubjub-subgroup", "curve25519"] {
+        let n = cx.counter_value(&format!("{ty}:cofactor-alphabet-points"));
+        cx.require(n >= 2, &format!("{ty}: no non-subgroup / small-order points were constructed"));
+    }
+    let mut totals = serde_json::Map::new();
+    for ty in ["bls12-381-G1", "bls12-381-G2", "bn254-G1", "bn254-G2", "jubjub-extended", "jubjub-subgroup", "secp256k1", "curve25519"] {
+        let acc = class_sum(&cx, ty, "accept[valid]");
+        let rej = class_sum(&cx, ty, "reject[non-canonical]") + class_sum(&cx, ty, "reject[off-curve]") + class_sum(&cx, ty, "reject[non-subgroup]");
+        cx.require(acc > 0, &format!("{ty}: no decoder accepted anything"));
+        cx.require(rej > 0, &format!("{ty}: no decoder rejected anything"));
+        totals.insert(ty.to_string(), serde_json::json!({"accepted_valid": acc, "rejected_invalid": rej}));
+    }
+    for ty in ["bls12-381-G1", "bls12-381-G2", "jubjub-subgroup"] {
+        let n = class_sum(&cx, ty, "reject[non-subgroup]") + class_sum(&cx, ty, "accept[non-subgroup]");
+        cx.require(n > 0, &format!("{ty}: no on-curve non-subgroup encoding reached a decoder"));
+    }
+    let n_flips = cx.counter_value("bitflips");
+    cx.require(n_flips > 1000, "too few bit-flip evaluations");
+    cx.extra("decoder_class_totals", serde_json::Value::Object(totals));
+    cx.finish()
+}
+
+/// Sum over the groups and decoders of the outcome classes `<group>:<type>:<decoder>:<class>`.
+fn class_sum(cx: &Ctx, ty: &str, class: &str) -> u64 {
+    let mut n = 0;
+    for g in ["encodings", "decoders"] {
+        for d in ["projective.from_bytes", "affine.from_bytes", "affine.from_uncompressed", "affine.from_raw_bytes", "affine.read_raw", "projective.from_raw_bytes", "projective.read_raw", "affine.serde_json", "projective.serde_json", "extended.from_bytes", "affine.batch_from_bytes", "subgroup.from_bytes"] {
+            n += cx.class_count(&format!("{g}:{ty}:{d}:{class}"));
+        }
+    }
+    n
+}
